@@ -22,6 +22,7 @@ class Gen:
         # taken; a static freezer cannot know, so such programs are not generated there
         self.branch_scoped = False
         self.use_eval = True
+        self.fwd_refs = True       # closures that mention a name declared AFTER them in the same scope
 
     # ---------------------------------------------------------------- scopes
     def fresh(self, prefix="v"):
@@ -331,6 +332,23 @@ class Gen:
             return [g.try_(body, x, handler)]
         if r < 0.925:
             return [self.switch_stmt()]
+        if r < 0.94:
+            # a local recursive function: its body mentions the name being declared
+            f, q = self.fresh("f"), self.fresh("p")
+            self.declare(f, "fn1")
+            body = g.if_(g.binop("<=", I(q), L(0)), L(self.rng.randint(0, 3)),
+                         g.binop("+", I(q), g.call(I(f), [g.binop("-", I(q), L(1))])))
+            return [g.decl(f, g.lam([g.param(q)], body)), g.call(I("print"), [g.call(I(f), [L(self.rng.randint(0, 3))])])]
+        if r < 0.95 and self.fwd_refs:
+            # a closure created BEFORE the variable it reads is declared in the same scope (variables, not
+            # values, are captured: the scope it closed over gains the name later)
+            f, x = self.fresh("f"), self.fresh()
+            shadow = self.rng.choice(ints) if ints and self.rng.random() < 0.4 else None
+            x = shadow or x
+            out = [g.decl(f, g.lam([], I(x))), g.decl(x, self.int_expr(1))]
+            self.declare(f, "fn0")
+            self.declare(x, "int")
+            return out + [g.call(I("print"), [g.call(I(f), [])])]
         if r < 0.95 and self.loop_depth > 0:
             lv = self.rng.randint(0, self.loop_depth - 1) if self.rng.random() < 0.8 else self.loop_depth
             return [g.if_(self.cond(1), self.rng.choice([g.brk(lv), g.cont(lv), g.brk(lv, self.int_expr(2))]))]
